@@ -24,7 +24,7 @@ OUTSIDE = ["the real eyaml binary and real keys; plaintexts outside the pool; do
            "rotation shards are selector-driven (ciphertext crosses encode/decode and ruamel scalar constructors)"]
 ASSUMPTIONS = ["marker spec: value without spaces and line feeds starts with 'ENC['"]
 
-PLAIN = ["s1", "s2", "x y"]
+PLAIN = ["s1", "  lead", "x y"]
 
 
 def marker_ok(v: str) -> bool:
